@@ -23,11 +23,16 @@ public:
         const int n = x.size();
         arr_cmplx r(n);
         for (int i = 0; i < n; i++) {
-            const real_t phase = 2 * pi * _freq * _phase / _fs;
+            //the sample counter wraps every _fs samples; a non-integer frequency does not complete whole cycles in
+            //that span, so the fractional number of cycles of the completed spans is carried along
+            const real_t phase = 2 * pi * _freq * _phase / _fs + 2 * pi * std::fmod(_freq * _wraps, real_t(1));
             const cmplx_t w = {std::cos(phase), std::sin(phase)};
             r[i] = x[i] * w;
             ++_phase;
-            _phase = (_phase < _fs) ? _phase : 0;
+            if (_phase >= _fs) {
+                _phase = 0;
+                ++_wraps;
+            }
         }
         return r;
     }
@@ -48,6 +53,7 @@ private:
     int _fs;
     real_t _freq;
     int _phase{0};
+    long long _wraps{0};
 };
 
 }   // namespace dsplib
